@@ -42,6 +42,7 @@ class Ctx:
         self.fb_values = {}  # tag -> list of values
         self.fb_calls = {}
         self.returned = {}  # tag -> last value returned
+        self.shared_names = set()  # components whose class is shared with another component
 
     def snapshot(self):
         r = self.robot
